@@ -39,7 +39,7 @@ InitFor(nw) ==
   /\ wopen' = [w \in Workers |-> w <= nw]
   /\ wreq' = [w \in Workers |-> {}]
   /\ toHub' = [w \in Workers |-> <<>>]
-  /\ req' = [r \in Reqs |-> [st |-> "idle", verb |-> "none"]]
+  /\ req' = [r \in Reqs |-> [st |-> "idle", verb |-> "none", file |-> NoFile]]
   /\ tasks' = [r \in Reqs |-> NoTask]
   /\ inFlight' = {}
   /\ out' = [r \in Reqs |-> <<>>]
@@ -50,7 +50,8 @@ TraceInit == Init /\ i = 1 /\ seen = [r \in Reqs |-> 0]
 
 T_reset == Is("reset") /\ InitFor(E.nw) /\ seen' = [r \in Reqs |-> 0] /\ Consume
 
-T_send == Is("send") /\ Client_Send(E.r, E.verb) /\ UNCHANGED seen /\ Consume
+\* a load-state names its file by shape (JSON array of record kinds; ["missing"] = no such file)
+T_send == Is("send") /\ Client_Send(E.r, E.verb, IF E.verb = "load" THEN E.file ELSE NoFile) /\ UNCHANGED seen /\ Consume
 
 T_ans == Is("ans") /\ Worker_Answer(E.w, Id(E.w, E.r, E.p), E.st) /\ UNCHANGED seen /\ Consume
 
